@@ -55,7 +55,12 @@ def run(ctx):
             ctx.ok("node-create", "paired-insert", site=t["sp"])
         ctx.sample({"site": t["sp"], "guards": [g["text"][:80] + " = " + str(g["taken"]) for g in gs]})
     # zero-suppression returns lo
-    # ---- (c) co-mutation of table and caches
+    ctx.guard("comut", lambda: run_comut(ctx))
+
+
+def run_comut(ctx):
+    """(c) co-mutation of the arena's table and its ZddRef-keyed caches (shared with C06: operations after gc)"""
+    F = ctx.facts()
     fields = F.fields(ARENA)
     if not fields:
         ctx.anchor_lost("comut", "struct ZddArena not found")
